@@ -5,12 +5,15 @@ import suites
 from proto import dec, enc
 
 TRUSTED_BASE = [
-    "Coq 8.16.1 kernel (coqc); vm_compute for the 'delimiter never inside an escape' table (11 x 256); no axioms",
+    "Coq 8.16.1 kernel (coqc); vm_compute for the 'delimiter never inside an escape' table (11 x 256) and for the finite side "
+    "conditions of the component round trip (positions_ok: 4 positions x 128 ASCII characters over the regenerated quoter and "
+    "isprintable tables; escapes_printable); no axioms",
     "str.isprintable as a range table regenerated from the running interpreter (coq/Generated/Tables.v)",
     "models coq/Model/Url.v (human_repr, human_quote), Host.v (IDNA decode oracle) validated by correspondence",
     "extraction (ExtrOcamlBasic only), ocaml/driver*.ml, harness",
 ]
-ASSUMPTIONS = ["source-to-model tie is differential testing; the URL-level round trip is checked, not proved"]
+ASSUMPTIONS = ["source-to-model tie is differential testing; the round trip is proved per component (user, password, path, fragment, whole "
+               "query) for every text; the URL-level composition (host, netloc assembly, split) is checked, not proved"]
 RULE = ("absolute URLs built with URL.build from decoded components: user, password, path segments, query keys/values and fragment drawn "
         "from 70 texts (every reserved delimiter, '%', escapes-looking text, C0/C1 controls, soft hyphen, ZWSP, bidi controls, NBSP, "
         "non-BMP, combining marks) x IDN/IPv4/IPv6 hosts x optional port; second stage parses u.human_repr(); predicate c18_pred "
